@@ -47,6 +47,14 @@ static void wr_default(const void* p, size_t n) { avel::prefetch_write(p, n); }
 static void rd_default1(const void* p, size_t) { avel::prefetch_read(p); }
 static void wr_default1(const void* p, size_t) { avel::prefetch_write(p); }
 
+
+// compile-time-constant counts: after inlining the library sees a literal n (paths guarded by __builtin_constant_p,
+// loops the optimiser unrolls or folds for one particular trip count)
+template<avel::Cache_level L, size_t N> void rd_const(const void* p, size_t) { avel::prefetch_read<L>(p, N); }
+template<avel::Cache_level L, size_t N> void wr_const(const void* p, size_t) { avel::prefetch_write<L>(p, N); }
+template<avel::Cache_level L, size_t N> void rd_const_d(const void* p, size_t) { avel::prefetch_read<L, double>((const double*)p, N); }
+template<avel::Cache_level L, size_t N> void wr_const_d(const void* p, size_t) { avel::prefetch_write<L, double>((const double*)p, N); }
+#define VK_CONST_NS(F) F(0) F(1) F(2) F(8) F(16) F(31) F(32) F(33) F(63) F(64) F(65) F(96) F(127) F(128) F(129) F(192) F(255) F(256) F(257) F(320) F(384) F(512) F(1024) F(4096)
 struct Fn { const char* name; PF f; size_t elem; };
 
 static void run_fn(const Fn& fn) {
@@ -115,6 +123,38 @@ static void run_fn(const Fn& fn) {
     end_cell();
 }
 
+struct CFn { size_t n; PF f; };
+static void run_const(const char* name, const std::vector<CFn>& fs) {
+    if (!begin_cell("C20", VK_LINE, name)) return;
+    Cell& c = cell();
+    std::vector<std::pair<const unsigned char*, const char*>> ptrs;
+    for (int map = 0; map < 2; ++map) {
+        unsigned char* m = map ? rw_map : ro_map;
+        for (unsigned off = 0; off < 128; off += 8) {
+            ptrs.push_back({m + PAGE + off, "data-start"});
+            ptrs.push_back({m + 3 * PAGE - 128 + off, "straddle-into-guard"});
+            ptrs.push_back({m + PAGE - 64 + off, "straddle-from-guard-before"});
+        }
+        ptrs.push_back({m + 3 * PAGE - 1, "last-byte"});
+    }
+    ptrs.push_back({nullptr, "null"});
+    unsigned hangs = 0;
+    for (auto& pp : ptrs) for (const CFn& f : fs) {
+        if (hangs >= 2) break;
+        uint32_t cls = (uint32_t)(hash_str(pp.second) % 200) + 1;
+        cpu_watchdog(3);
+        bool done = guarded_call([&]() { f.f(pp.first, 0); });
+        cell_watchdog(true);
+        char in[160]; std::snprintf(in, sizeof in, "place=%s,ptr_off=%u,n=%zu(literal)", pp.second, (unsigned)((uintptr_t)pp.first & 127), f.n);
+        if (!done && trap().sig == SIGVTALRM) { viol("hang", cls, -1, in, "no return within 3 s of CPU time", "returns"); ++hangs; }
+        else if (!done) { TrapCtx& t = trap(); c.traps++; char b[96]; std::snprintf(b, sizeof b, "%s@%s", signame(t.sig), where(t.addr)); viol("trap", cls, -1, in, b, "no signal"); }
+        c.cases++; c.lanes++; c.cls_add(cls + ((f.n > 64 ? 1u : 0u) << 8));
+        if (c.cases <= 2) add_sample(std::string(name) + "(" + pp.second + ", literal n=" + std::to_string(f.n) + ")");
+    }
+    if (std::memcmp(rw_copy, rw_map + PAGE, 2 * PAGE) != 0) { viol("memory-changed", 0, -1, "at end of cell", "changed", "unchanged"); std::memcpy(rw_map + PAGE, rw_copy, 2 * PAGE); }
+    end_cell();
+}
+
 int main(int argc, char** argv) {
     start(argc, argv, "c20_prefetch");
     arena_init();
@@ -132,5 +172,32 @@ int main(int argc, char** argv) {
         {"prefetch_write<L3,uint8>", &wr_typed<L3_CACHE, std::uint8_t>, 1}, {"prefetch_write<L3,S4>", &wr_typed<L3_CACHE, S4>, 4}, {"prefetch_write<L3,S24>", &wr_typed<L3_CACHE, S24>, 24}, {"prefetch_write<L3,S40>", &wr_typed<L3_CACHE, S40>, 40}, {"prefetch_write<L3,S48>", &wr_typed<L3_CACHE, S48>, 48}, {"prefetch_write<L3,S64>", &wr_typed<L3_CACHE, S64>, 64}, {"prefetch_write<L3,S65>", &wr_typed<L3_CACHE, S65>, 65}, {"prefetch_write<L3,S200>", &wr_typed<L3_CACHE, S200>, 200},
     };
     for (const Fn& f : fns) run_fn(f);
+#define VK_C(N) {N, &rd_const<L1_CACHE, N>},
+    run_const("prefetch_read<L1>/literal-n", { VK_CONST_NS(VK_C) });
+#undef VK_C
+#define VK_C(N) {N, &rd_const<L2_CACHE, N>},
+    run_const("prefetch_read<L2>/literal-n", { VK_CONST_NS(VK_C) });
+#undef VK_C
+#define VK_C(N) {N, &rd_const<L3_CACHE, N>},
+    run_const("prefetch_read<L3>/literal-n", { VK_CONST_NS(VK_C) });
+#undef VK_C
+#define VK_C(N) {N, &wr_const<L1_CACHE, N>},
+    run_const("prefetch_write<L1>/literal-n", { VK_CONST_NS(VK_C) });
+#undef VK_C
+#define VK_C(N) {N, &wr_const<L2_CACHE, N>},
+    run_const("prefetch_write<L2>/literal-n", { VK_CONST_NS(VK_C) });
+#undef VK_C
+#define VK_C(N) {N, &wr_const<L3_CACHE, N>},
+    run_const("prefetch_write<L3>/literal-n", { VK_CONST_NS(VK_C) });
+#undef VK_C
+#define VK_C(N) {N, &rd_const_d<L1_CACHE, N>},
+    run_const("prefetch_read<L1,double>/literal-n", { VK_CONST_NS(VK_C) });
+#undef VK_C
+#define VK_C(N) {N, &rd_const_d<L3_CACHE, N>},
+    run_const("prefetch_read<L3,double>/literal-n", { VK_CONST_NS(VK_C) });
+#undef VK_C
+#define VK_C(N) {N, &wr_const_d<L2_CACHE, N>},
+    run_const("prefetch_write<L2,double>/literal-n", { VK_CONST_NS(VK_C) });
+#undef VK_C
     return finish();
 }
